@@ -517,6 +517,9 @@ theorem exec_sim : ∀ (code : List Stmt) (st : List TVal) (sl : List (String ×
   | [], st, sl, _, hs => ⟨⟨[], by simp [execC]⟩, by simpa [execC] using hs, by simp [execC, execA]⟩
   | .fail :: rest, st, sl, _, hs => ⟨⟨[], by simp [execC]⟩, by simpa [execC] using hs, by simp [execC, execA]⟩
   | .selset d k v :: rest, st, sl, hp, _ => by simp [Stmt.pure] at hp
+  | .hidden k :: rest, st, sl, hp, hs => by
+      have hp' : rest.all Stmt.pure = true := by simp only [List.all_cons, Bool.and_eq_true] at hp; exact hp.2
+      simpa only [execC, execA] using exec_sim rest st sl hp' hs
   | .define d (.const v) :: rest, st, sl, hp, hs => by
       have hp' : rest.all Stmt.pure = true := by simp only [List.all_cons, Bool.and_eq_true] at hp; exact hp.2
       obtain ⟨⟨ext, he⟩, h2, h3⟩ := exec_sim rest (st ++ [v]) (setKey d (some st.length) sl) hp' (slotsOK_const hs d v)
@@ -868,7 +871,7 @@ theorem api_refines_partial (L : Limits) (ops : List Op) (h : ∀ op ∈ ops, op
 /-- Non-vacuity: a history with two Compiled handles and a clone alive, a failing run, a rejected Set
 and reads of unknown / not yet assigned names satisfies the hypothesis, and its outputs are not trivial. -/
 def sampleHistory : List Op := [
-  .newScript [.define "out" (.var "a"), .assign "a" (.const (.int 5)), .fail, .define "late" (.const (.int 1))],
+  .newScript [.hidden 1, .define "out" (.var "a"), .assign "a" (.const (.int 5)), .fail, .define "late" (.const (.int 1))],
   .add 0 "a" (.int .int 1), .compile 0, .compile 0, .set 1 "a" (.str [120]), .set 1 "zz" (.int .int 3),
   .isDefined 0 "out", .run 0, .get 0 "out", .get 0 "a", .get 1 "a", .isDefined 0 "late", .get 0 "nope",
   .clone 0, .set 2 "out" (.nil), .get 0 "out", .isDefined 2 "out", .getAll 2]
@@ -937,6 +940,7 @@ theorem execC_keys : ∀ (code : List Stmt) (st : List TVal) (sl : List (String 
     (execC code st sl).2.1.map (·.1) = sl.map (·.1)
   | [], _, _ => rfl
   | .fail :: _, _, _ => rfl
+  | .hidden k :: rest, st, sl => by simp only [execC]; exact execC_keys rest st sl
   | .define d (.const v) :: rest, st, sl => by simp only [execC]; rw [execC_keys rest, setKey_keys]
   | .assign d (.const v) :: rest, st, sl => by simp only [execC]; rw [execC_keys rest, setKey_keys]
   | .define d (.var x) :: rest, st, sl => by simp only [execC]; rw [execC_keys rest, setKey_keys]
